@@ -18,7 +18,8 @@ func init() {
 		Explanation: "Custom DNS rewrites. Decided: (D1) termination: the CNAME-chase loop has a visited-set variant — the set is created before the loop, the next host is tested with Has and, on the not-seen edge, added with Add as the very same value that becomes the loop's host and the argument of the next table lookup; every cycle of the loop passes that Add; a seen host leaves the loop; the table is not written inside and the whole evaluation runs under the configuration read lock; the helper loops are counted range loops; " +
 			"(D2) address provenance: addresses are appended to the result only from the IP field of entries returned by the table lookup for the final host, and only for entries whose type equals the query type; every other writer of the address list is enumerated; (D3) response assembly: the original question is saved before the name is replaced, and restored (request and response) with the CNAME record prepended; the CNAME helper restores the name by defer; " +
 			"(D4) 'matched but no value' yields the Rewritten reason, which ends host checking before any other checker; entries enter the table only after normalisation and their fields are never edited in place. " +
-			"Not decided: the precedence relation itself (Compare, wildcard specificity, cut at the first wildcard) and agreement with the documentation examples — value-level comparator logic.",
+			"(D5) precedence: the comparator the matched entries are sorted with, evaluated over the finite domain {is-CNAME} x {is-wildcard} x {sign of the pattern-length difference} of both arguments, puts CNAME before address entries, exact before wildcard within one kind and the longer wildcard first, antisymmetrically; the sorted list is cut at the first wildcard keeping at least one entry, and nothing else is returned. " +
+			"Not decided: wildcard matching itself (suffix test), agreement with the documentation examples.",
 		RuleText:    "Loop structure from SSA dominators/back edges, value identity for the variant, provenance slices, who-may-write enumeration, must-pass ordering.",
 		Assumptions: []string{"container.MapSet Has/Add semantics (golibs)", "the set of table entries is finite"},
 		Trusted:     commonTrusted,
@@ -189,6 +190,7 @@ func runC06(c *Ctx) {
 	c06Addresses(c)
 	c06Assembly(c)
 	c06Table(c)
+	c06Precedence(c)
 }
 
 func c06Addresses(c *Ctx) {
@@ -540,4 +542,205 @@ func c06Table(c *Ctx) {
 	if pp != nil {
 		r.Check(len(core.CallsTo(pp, "(*filtering.LegacyRewrite).normalize")) > 0, "C06-D4", "configured-entries-normalised", p.FnPos(pp), "configured entries are normalised at start", "configured entries are no longer normalised at start")
 	}
+}
+
+// c06Precedence: D5.
+func c06Precedence(c *Ctx) {
+	p, r := c.P, c.R
+	fr := p.Fn("filtering.findRewrites")
+	if fr == nil {
+		r.Undecided("C06-D5", "findRewrites", "-", "anchor not found")
+		return
+	}
+	var sortCall *ssa.Call
+	for _, call := range core.Calls(fr) {
+		if strings.HasPrefix(call.Key, "slices.SortFunc") || strings.HasPrefix(call.Key, "slices.SortStableFunc") {
+			if sortCall != nil {
+				r.Undecided("C06-D5", "one-sort", p.InstrPos(call.Instr), "more than one sort of the matched entries")
+				return
+			}
+			sortCall, _ = call.Instr.(*ssa.Call)
+		}
+	}
+	if sortCall == nil {
+		r.Fail("C06-D5", "matched-entries-sorted", p.FnPos(fr), "the matched entries are no longer sorted by precedence before the cut")
+		return
+	}
+	sorted := sortCall.Call.Args[0]
+	cmpFn, _ := core.FnValue(sortCall.Call.Args[1])
+	if cmpFn != nil && strings.HasSuffix(cmpFn.Name(), "$thunk") {
+		for _, call := range core.Calls(cmpFn) {
+			if sc := call.Common.StaticCallee(); sc != nil {
+				cmpFn = sc
+				break
+			}
+		}
+	}
+	if cmpFn == nil || len(cmpFn.Blocks) == 0 {
+		r.Undecided("C06-D5", "comparator", p.InstrPos(sortCall), "the comparator passed to the sort could not be resolved")
+		return
+	}
+	model := core.AbsModel{
+		Project: func(op string, arg core.AbsVal) (string, bool) {
+			switch {
+			case op == ".Type" && arg.Kind == core.AbsParam:
+				return "Type", true
+			case op == ".Domain" && arg.Kind == core.AbsParam:
+				return "Domain", true
+			case op == "len" && arg.Kind == core.AbsProj && arg.Sym == "Domain":
+				return "len(Domain)", true
+			}
+			return "", false
+		},
+		Predicate: func(op string, arg core.AbsVal) (string, bool) {
+			switch {
+			case op == "==const:5" && arg.Kind == core.AbsProj && arg.Sym == "Type": // dns.TypeCNAME
+				return "isCNAME", true
+			case op == "filtering.isWildcard" && arg.Kind == core.AbsProj && arg.Sym == "Domain":
+				return "isWildcard", true
+			}
+			return "", false
+		},
+	}
+	var bad []string
+	res := map[[5]int]int{}
+	b2i := func(b bool) int {
+		if b {
+			return 1
+		}
+		return 0
+	}
+	bools := []bool{false, true}
+	for _, cx := range bools {
+		for _, cy := range bools {
+			for _, wx := range bools {
+				for _, wy := range bools {
+					for _, ln := range []int{-1, 0, 1} {
+						f := core.AbsFacts{
+							Rel:  map[string]int{"len(Domain)": ln},
+							Pred: map[string][2]bool{"isCNAME": {cx, cy}, "isWildcard": {wx, wy}},
+						}
+						v, ok, why := core.AbsEval(cmpFn, model, f)
+						r.Eval(1)
+						if !ok || v.Kind != core.AbsInt {
+							r.Undecided("C06-D5", "comparator", p.FnPos(cmpFn), fmt.Sprintf("%s could not be evaluated (cname %v/%v wildcard %v/%v len %+d): %s", core.FuncKey(cmpFn), cx, cy, wx, wy, ln, why))
+							return
+						}
+						s := v.Sign
+						res[[5]int{b2i(cx), b2i(cy), b2i(wx), b2i(wy), ln}] = s
+						desc := fmt.Sprintf("x{cname:%v wildcard:%v} y{cname:%v wildcard:%v} len(x)-len(y) sign %+d -> result sign %+d", cx, wx, cy, wy, ln, s)
+						switch {
+						case cx != cy:
+							if (cx && s >= 0) || (cy && s <= 0) {
+								bad = append(bad, "CNAME entry not ordered before the address entry: "+desc)
+							}
+						case wx != wy:
+							if (wy && s >= 0) || (wx && s <= 0) {
+								bad = append(bad, "exact entry not ordered before the wildcard of the same kind: "+desc)
+							}
+						case wx && wy:
+							if (ln > 0 && s >= 0) || (ln < 0 && s <= 0) {
+								bad = append(bad, "longer (more specific) wildcard not ordered first: "+desc)
+							}
+						}
+					}
+				}
+			}
+		}
+	}
+	for k, v := range res {
+		if res[[5]int{k[1], k[0], k[3], k[2], -k[4]}] != -v {
+			bad = append(bad, fmt.Sprintf("not antisymmetric at %v", k))
+		}
+	}
+	sort.Strings(bad)
+	if len(bad) > 8 {
+		bad = append(bad[:8], fmt.Sprintf("... and %d more cases", len(bad)-8))
+	}
+	r.Check(len(bad) == 0, "C06-D5", "comparator:cname-exact-specific", p.FnPos(cmpFn),
+		fmt.Sprintf("%s puts CNAME before address entries, exact before wildcard and the longer wildcard first in all 48 abstract cases", core.FuncKey(cmpFn)),
+		fmt.Sprintf("%s does not implement the documented precedence", core.FuncKey(cmpFn)), bad...)
+
+	// the cut
+	var cuts []*ssa.Slice
+	for _, b := range fr.Blocks {
+		for _, in := range b.Instrs {
+			if sl, ok := in.(*ssa.Slice); ok && sl.X == sorted {
+				cuts = append(cuts, sl)
+			}
+		}
+	}
+	if len(cuts) != 1 {
+		r.Fail("C06-D5", "cut-at-first-wildcard", p.FnPos(fr), fmt.Sprintf("expected exactly one cut of the sorted list, found %d", len(cuts)))
+		return
+	}
+	cut := cuts[0]
+	okCut, whyCut := true, ""
+	fail := func(w string) {
+		if okCut {
+			okCut, whyCut = false, w
+		}
+	}
+	if cut.Low != nil {
+		fail("the cut drops leading (highest-precedence) entries")
+	}
+	var idx ssa.Value
+	if mc, ok := cut.High.(*ssa.Call); ok {
+		if bi, ok := mc.Call.Value.(*ssa.Builtin); ok && bi.Name() == "max" && len(mc.Call.Args) == 2 {
+			for i, a := range mc.Call.Args {
+				if n, ok := core.ConstInt(a); ok && n == 1 {
+					idx = mc.Call.Args[1-i]
+				}
+			}
+		}
+	}
+	if idx == nil {
+		fail("the cut length is not max(1, index of the first wildcard): it must keep at least one entry and everything before the first wildcard")
+	}
+	// the cut happens on the true edge of isWildcard(sorted[idx].Domain)
+	blk := cut.Block()
+	guarded := false
+	if len(blk.Preds) == 1 {
+		if iff, ok := blk.Preds[0].Instrs[len(blk.Preds[0].Instrs)-1].(*ssa.If); ok && blk.Preds[0].Succs[0] == blk {
+			if wc, ok := iff.Cond.(*ssa.Call); ok && core.CalleeKey(wc.Common()) == "filtering.isWildcard" {
+				if fr2, base, ok := core.LoadedField(wc.Call.Args[0]); ok && fr2.Field == "Domain" {
+					if ld, ok := base.(*ssa.UnOp); ok {
+						if ia, ok := ld.X.(*ssa.IndexAddr); ok && ia.X == sorted && (idx == nil || ia.Index == idx) {
+							guarded = true
+						}
+					}
+				}
+			}
+			// the loop is left after the cut
+			if guarded {
+				if found, _, _ := core.Reach(core.Query{From: []core.Point{{Block: blk, Idx: 0}}, Target: func(in ssa.Instruction) bool { return in == ssa.Instruction(iff) }}); found {
+					fail("the scan goes on after the cut")
+				}
+			}
+		}
+	}
+	if !guarded {
+		fail("the cut is not taken exactly when the entry at the cut index is a wildcard")
+	}
+	// nothing else is returned after the sort
+	for _, b := range fr.Blocks {
+		ret, ok := b.Instrs[len(b.Instrs)-1].(*ssa.Return)
+		if !ok || !sortCall.Block().Dominates(b) {
+			continue
+		}
+		var leaves func(v ssa.Value, depth int)
+		leaves = func(v ssa.Value, depth int) {
+			if ph, ok := v.(*ssa.Phi); ok && v != sorted && depth < 8 && sortCall.Block().Dominates(ph.Block()) {
+				for _, e := range ph.Edges {
+					leaves(e, depth+1)
+				}
+				return
+			}
+			if v != sorted && v != ssa.Value(cut) {
+				fail("a list other than the sorted one or its cut is returned")
+			}
+		}
+		leaves(ret.Results[0], 0)
+	}
+	r.Check(okCut, "C06-D5", "cut-at-first-wildcard", p.InstrPos(cut), "the sorted entries are cut at the first wildcard, keeping at least one entry, and only that list is returned", "the cut of the sorted entries changed: "+whyCut)
 }
